@@ -544,7 +544,12 @@ impl C11 {
         let lab = |n: &str| sym.as_ref().and_then(|t| t.lookup_label(n)).unwrap_or(0);
         let snap: Vec<lc3_ensemble::sim::mem::Word> = (0x3000..0xFE00u16).map(|a| w.sim.mem[a]).collect();
         let fail = |c: &str, d: String| Some(Violation { class: c.to_string(), step: 0, detail: format!("TRAP x{:02X} R0=x{:04X}: {d}", s.trap, s.regs[0]) });
-        let e = match run_to_end(&mut w) {
+        // the program is driven by run(), or in run_with_limit(k) slices until the halt is reported
+        let slice: Option<u64> = s.m.profile.strip_prefix("C11-slice-").and_then(|k| k.parse().ok());
+        if slice.is_some() {
+            out.bump("probe.sliced-drive");
+        }
+        let e = match if let Some(k) = slice { slice_to_end(&mut w, k, s.m.max_ticks) } else { run_to_end(&mut w) } {
             Ok(e) => e,
             Err(p) => return fail("panic-in-run", p),
         };
@@ -785,6 +790,9 @@ impl Check for C11 {
             m.pokes.push((0x100 + vect as u16, vec![haddr]));
         }
         m.max_ticks = key_tick + 400 + 160 * out_len + 200 * nirq as u32;
+        if r.chance(1, 4) {
+            m.profile = format!("C11-slice-{}", *r.pick(&[1u64, 1, 2, 3, 7, 20]));
+        }
         let mut s = C11Scn { m, trap, regs, ccv: r.u16(), str_addr, words, keys, key_tick };
         let text = c11_source(&s, r.bool());
         s.m.srcs.insert(0, SrcSpec { text, debug: true });
